@@ -10,6 +10,7 @@ import Iodata.Lemmas.Fmt.PoscarW
 import Iodata.Lemmas.Fmt.FchkO
 import Iodata.Lemmas.Fmt.WfnS
 import Iodata.Lemmas.Fmt.WfxS
+import Iodata.Lemmas.Fmt.Qcs
 import Iodata.Gen.LayoutsW
 
 namespace Iodata.Props.C15W
@@ -143,6 +144,32 @@ theorem wfx_norm_stable (L : WfxS.Layout) (secs : List WfxS.Sec) (h : WfxS.Dom L
 
 /-- WFX: the source has the shape the theorems assume. -/
 theorem wfx_current : WfxS.LayoutOK wfxL ∧ wfx_writes = WfxS.expectedWrites wfxL ∧ wfx_parse_consts = WfxS.expectedParseConsts := by
+  decide +kernel
+
+/-! ## QCSchema JSON, molecule core: stable except for the provenance trail (the documented exception) -/
+
+/-- QCSchema molecule: after one cycle a further cycle returns the same object in everything but the provenance trail,
+which grows by exactly one entry per save, by design; the reloaded object stays in the domain. -/
+theorem qcschema_norm_stable (T : Tables) (K : Qcs.Keys) (known : List Str) (reshapes : Bool) (hK : Qcs.KeysOK K K known) (m : Qcs.Mol)
+    (h : Qcs.Dom T K known reshapes m) :
+    (Qcs.norm K.pass (Qcs.norm K.pass m).mol).dropProv = (Qcs.norm K.pass m).dropProv ∧
+    (Qcs.norm K.pass (Qcs.norm K.pass m).mol).prov = Qcs.provGrow (Qcs.norm K.pass m).prov ∧
+    Qcs.provLen (Qcs.norm K.pass m).prov = Qcs.provLen m.prov + 1 ∧ Qcs.Dom T K known reshapes (Qcs.norm K.pass m).mol := by
+  obtain ⟨a, b, c⟩ := Qcs.norm_norm K.pass hK.2.2.2 m
+  exact ⟨a, b, c, Qcs.dom_norm T K known reshapes hK m h⟩
+
+/-- QCSchema molecule: generations on the model — the second reload is the first one with one more provenance entry. -/
+theorem qcschema_generations (T : Tables) (K : Qcs.Keys) (known : List Str) (reshapes : Bool) (hK : Qcs.KeysOK K K known) (m : Qcs.Mol)
+    (x₁ : Qcs.Loaded) (h : Qcs.Dom T K known reshapes m) (h₁ : Qcs.load T K known reshapes (Qcs.dump T K m) = .ok x₁) :
+    ∃ x₂, Qcs.load T K known reshapes (Qcs.dump T K x₁.mol) = .ok x₂ ∧ x₂.dropProv = x₁.dropProv ∧ x₂.prov = Qcs.provGrow x₁.prov := by
+  rw [Qcs.load_dump T K known reshapes hK m h] at h₁
+  cases h₁
+  refine ⟨_, Qcs.load_dump T K known reshapes hK _ (Qcs.dom_norm T K known reshapes hK m h), ?_, ?_⟩
+  · exact (Qcs.norm_norm K.pass hK.2.2.2 m).1
+  · exact (Qcs.norm_norm K.pass hK.2.2.2 m).2.1
+
+/-- QCSchema molecule: the key tables in the source satisfy the hypotheses of the theorems above. -/
+theorem qcschema_current : Qcs.KeysOK qcsW qcsR qcsKnown ∧ qcsExprs = Qcs.expectedExprs := by
   decide +kernel
 
 end Iodata.Props.C15W
